@@ -56,7 +56,7 @@ pub fn run_in_child(check_id: &str, model: &str, seed: u64, budget_s: u64) -> Ca
         match child.try_wait() {
             Ok(Some(_)) => break false,
             Ok(None) => {
-                if start.elapsed().as_secs() > budget_s + 20 {
+                if start.elapsed().as_secs() > budget_s + 5 {
                     let _ = child.kill();
                     let _ = child.wait();
                     break true;
